@@ -1,5 +1,6 @@
 // C12 driver (concurrent half): threads copy / drop private CountingPtr handles to one shared object under vsched.
-// script line:  N  { len op... }xN  strategy seed  nscript tid...        op: 0 copy, 1 drop; strategy as vsched::Strategy
+// script line:  N  { len op... }xN  strategy seed  nscript tid...        op: 0 copy, 1 drop, 2 unify() then drop; strategy as vsched::Strategy
+// (op 2 releases the handle through unify(): clone if shared, then let go; for the shared counter it is a drop, and the trace says so)
 // Every line runs in a forked child (a deadlocked or crashed execution cannot disturb the next one).
 #include <common/ndjson.hpp>
 #include <tlx/counting_ptr.hpp>
@@ -10,7 +11,13 @@ using namespace vf;
 static std::vector<std::string> g_ev;
 static int g_dtors = 0;
 static bool g_started = false;
-struct Obj : public tlx::ReferenceCounter { ~Obj() { ++g_dtors; g_ev.push_back("{\"e\":\"delete\",\"t\":" + std::to_string(vsched::self()) + "}"); } };
+// (a clone made by unify() is a private object of the calling thread: only the shared original is traced)
+struct Obj : public tlx::ReferenceCounter {
+    bool clone = false;
+    Obj() = default;
+    Obj(const Obj& o) : tlx::ReferenceCounter(o), clone(true) {}
+    ~Obj() { if (clone) return; ++g_dtors; g_ev.push_back("{\"e\":\"delete\",\"t\":" + std::to_string(vsched::self()) + "}"); }
+};
 
 static void write_out(const char* path, const vsched::Result& r) {
     FILE* f = std::fopen(path, "a");
@@ -50,7 +57,7 @@ static void child(const std::string& line, const char* outpath) {
         { H first(o); hs[0].push_back(first); for (int t = 1; t < N; ++t) hs[t].push_back(first); }
         // (first itself is released here: one extra inc/dec pair by main before the start, not logged)
         g_started = true;
-        auto body = [&](int t) { for (int op : prog[t]) { if (op == 0) hs[t].push_back(hs[t].back()); else hs[t].pop_back(); } };
+        auto body = [&](int t) { for (int op : prog[t]) { if (op == 0) hs[t].push_back(hs[t].back()); else { if (op == 2) hs[t].back().unify(); hs[t].pop_back(); } } };
         std::vector<vsched::thread> th;
         for (int t = 1; t < N; ++t) th.emplace_back(body, t);
         body(0);
